@@ -18,11 +18,27 @@ NOT_APPLICABLE = [
     {"property_id": "C20", "reason": "iptables rule text is a pure function of the capture configuration; " + PURE},
 ]
 # properties planned in DESIGN.md whose check is not built yet (removed from here as they land)
-for _p, _sec in [("C01", "4.1"), ("C03", "4.3"), ("C04", "4.4"), ("C05", "4.5"), ("C06", "4.6"), ("C11", "4.7"), ("C13", "4.8"),
+for _p, _sec in [("C01", "4.1"), ("C03", "4.3"), ("C04", "4.4"), ("C05", "4.5"), ("C06", "4.6"), ("C11", "4.7"), 
                  ("C15", "4.9"), ("C16", "4.10"), ("C17", "4.11"), ("C18", "4.12")]:
     NOT_APPLICABLE.append({"property_id": _p, "reason": "not claimed yet: simulation target (DESIGN.md section %s) whose check is still being built; not a not-applicable verdict" % _sec})
 
 PROPERTIES = {
+    "C13": {
+        "design_ref": "4.8",
+        "technique": "deterministic simulation: seeded interleaving of registry calls on the real EndpointIndex through a yield hook inside UpdateServiceEndpoints; linearizability of the recorded history against a sequential model (porcupine)",
+        "level_text": "seeded search over interleavings of concurrent registry operations (including the window between shard lookup and shard lock) on the real endpoint index; each history is checked for linearizability against a small sequential reference model; sampling, not proof",
+        "level_note": "trusted: porcupine v1.3.0, the sequential reference model (written from the statement; push type compared as 'at least as strong'), testing/synctest quiescence, the single yield hook as the only intra-operation preemption point (all other index operations are atomic under the index lock)",
+        "rule": "each run = 2-4 registries with generated programs over 1-2 services; the simulator picks which parked registry runs next; distinct = distinct schedule signature; non-trivial = some operation ran while an update was parked between lookup and lock",
+        "real": ["model.EndpointIndex (UpdateServiceEndpoints, DeleteServiceShard, DeleteShard, PruneShard, Shardz)"],
+        "stub": ["registries (harness tasks issuing the calls real registries make)", "XdsCache (model.DisabledCache)"],
+        "assumptions": ["index operations other than UpdateServiceEndpoints are atomic under the index lock", "reads compare non-empty per-registry reports only (existence of an empty shard set and the accumulated service-account set are bookkeeping)"],
+        "subchecks": [
+            {"check": "c13a", "what": "EndpointIndex linearizability under registry interleavings",
+             "nontrivial": "an operation ran while an update was parked between shard lookup and shard lock",
+             "budget": {"quick": 25, "thorough": 300}, "seeds": {"quick": 1, "thorough": 3}, "chunk": 300,
+             "must_probe": ["op_while_update_parked", "concurrent_updates_same_service"]},
+        ],
+    },
     "C02": {
         "design_ref": "4.2",
         "technique": "deterministic simulation: seeded schedule search over PushQueue/debounce operations on virtual time, history oracle (coverage, exact union, no aliasing, single flight, bounded liveness)",
@@ -34,6 +50,10 @@ PROPERTIES = {
         "assumptions": ["PushQueue operations are atomic under its single lock, so ordering whole operations reaches every interleaving",
                         "virtual time (testing/synctest); goroutines woken in one step run under the Go scheduler (quiescent-point determinism, self-tested)"],
         "subchecks": [
+            {"check": "c02a", "what": "real debounce loop on virtual time: arrivals at/around timer expiry and during a running push; exactly-once coverage, union/forced, single flight, bounded liveness",
+             "nontrivial": "a notification arrived while a debounced push was running",
+             "budget": {"quick": 20, "thorough": 300}, "seeds": {"quick": 1, "thorough": 3}, "chunk": 300,
+             "must_probe": ["event_while_push_running", "merged_push"]},
             {"check": "c02b", "what": "PushQueue Enqueue/Dequeue/MarkDone/ShutDown interleavings, coverage + exact-union + no-aliasing oracle",
              "nontrivial": "an Enqueue hit a connection that was dequeued and not yet marked done",
              "budget": {"quick": 20, "thorough": 300}, "seeds": {"quick": 1, "thorough": 3}, "chunk": 400,
